@@ -816,6 +816,9 @@ def parse_range_header(
                 begin = _plain_int(item)
             except ValueError:
                 return None
+            if begin == 0:
+                # a suffix of length zero ("-0") is never satisfiable
+                return None
             end = None
             last_end = -1
         elif "-" in item:
